@@ -1297,7 +1297,7 @@ def mk_net_drms(
     if reorder:
         Mcb = cbreorder(Mcb, bset)
         Kcb = cbreorder(Kcb, bset)
-        i = np.argsort(bset)
+        i = np.argsort(np.argsort(bset))
         uset = uset.iloc[i]
         if bsubset is not None:
             bsubset = locate.index2bool(bsubset, len(bset))
